@@ -309,6 +309,62 @@ func (fx *FnExec) doRunDefers(st *State, fr *frame, x *ssa.RunDefers) bool {
 // ---- the call itself ----
 
 // siteAsserts: `at <site> assert e` clauses of the enclosing function's contract.
+func (fx *FnExec) siteEnv(st *State, fr *frame, site ssa.Instruction) *evalEnv {
+	env := fx.frameEnv(st, fr)
+	// phi names of the loops enclosing the site
+	li := fx.loops(fr.fn)
+	for _, h := range li.headers {
+		if !h.body[site.Block()] {
+			continue
+		}
+		for _, ins := range h.header.Instrs {
+			phi, ok := ins.(*ssa.Phi)
+			if !ok {
+				break
+			}
+			if phi.Comment == "" {
+				continue
+			}
+			if t, ok := st.vals[phi]; ok {
+				if _, dup := env.vars[phi.Comment]; !dup {
+					env.vars[phi.Comment] = cval{t: t, typ: phi.Type(), sort: fx.sortOf(phi.Type())}
+				}
+			}
+		}
+	}
+	return env
+}
+
+// ghostSets: `at <site> ghostset g = e` assignments, executed just before the site.
+func (fx *FnExec) ghostSets(st *State, fr *frame, site ssa.Instruction) {
+	if fr.fc == nil || len(fr.fc.GhostSets) == 0 {
+		return
+	}
+	name := fx.ord(fr.fn, site, "")
+	gss := fr.fc.GhostSets[name]
+	if len(gss) == 0 {
+		return
+	}
+	fx.boundAsserts[fnKey(fr.fn)+"@gs:"+name] = true
+	env := fx.siteEnv(st, fr, site)
+	for _, gs := range gss {
+		v, err := env.safeEval(gs.Expr)
+		if err != nil {
+			panic(fmt.Sprintf("%s:%d: %v", fr.fc.File, gs.Line, err))
+		}
+		srt := ""
+		for _, g := range fr.fc.GhostVars {
+			if g.Name == gs.Name {
+				srt, _ = env.resolveType(g.Type)
+			}
+		}
+		if srt == "" {
+			panic(evalErr{"ghostset: undeclared ghost variable " + gs.Name})
+		}
+		st.heapSet("gv."+gs.Name, srt, v.t)
+	}
+}
+
 func (fx *FnExec) siteAsserts(st *State, fr *frame, cc *ssa.CallCommon, args *callArgs, site ssa.Instruction) {
 	if fr.fc == nil || len(fr.fc.Asserts) == 0 {
 		return
@@ -319,7 +375,7 @@ func (fx *FnExec) siteAsserts(st *State, fr *frame, cc *ssa.CallCommon, args *ca
 		return
 	}
 	fx.boundAsserts[fnKey(fr.fn)+"@"+name] = true
-	env := fx.frameEnv(st, fr)
+	env := fx.siteEnv(st, fr, site)
 	for i, t := range args.terms {
 		if i < len(args.vals) {
 			env.vars[fmt.Sprintf("arg%d", i)] = cval{t: t, typ: args.vals[i].Type(), sort: fx.sortOf(args.vals[i].Type()), lv: args.lvs[i]}
@@ -339,6 +395,7 @@ func (fx *FnExec) siteAsserts(st *State, fr *frame, cc *ssa.CallCommon, args *ca
 }
 
 func (fx *FnExec) call(st *State, fr *frame, cc *ssa.CallCommon, args *callArgs, site ssa.Instruction, mode string, k func(*State, []Term)) {
+	fx.ghostSets(st, fr, site)
 	fx.siteAsserts(st, fr, cc, args, site)
 	// calling a method on a nil interface, or a nil function value, panics
 	if cc.IsInvoke() {
@@ -626,8 +683,18 @@ func (fx *FnExec) contractEnv(st *State, tgt callTarget, sig *types.Signature, c
 		if tgt.closure != nil {
 			for i, fv := range tgt.fn.FreeVars {
 				t := tgt.closure.bindings[i]
-				if pt, isPtr := fv.Type().Underlying().(*types.Pointer); isPtr && tgt.closure.bindLVs[i] != nil {
-					env.vars[fv.Name()] = cval{t: st.load(tgt.closure.bindLVs[i]), typ: pt.Elem(), sort: tgt.closure.bindLVs[i].elemSort, lv: tgt.closure.bindLVs[i], cell: true}
+				blv := tgt.closure.bindLVs[i]
+				if pt, isPtr := fv.Type().Underlying().(*types.Pointer); isPtr && blv == nil {
+					// a captured variable passed on by an enclosing closure: the cell at address t
+					if _, isStruct := pt.Elem().Underlying().(*types.Struct); !isStruct {
+						if _, isArr := pt.Elem().Underlying().(*types.Array); !isArr {
+							srt := fx.sortOf(pt.Elem())
+							blv = &LValue{kind: lvHeap, heap: "Cell." + sanitize(srt), heapSort: arrOf(srt), idx: t, elemSort: srt, typ: pt.Elem()}
+						}
+					}
+				}
+				if pt, isPtr := fv.Type().Underlying().(*types.Pointer); isPtr && blv != nil {
+					env.vars[fv.Name()] = cval{t: st.load(blv), typ: pt.Elem(), sort: blv.elemSort, lv: blv, cell: true}
 				} else {
 					env.vars[fv.Name()] = cval{t: t, typ: fv.Type(), sort: fx.sortOf(fv.Type())}
 				}
@@ -739,6 +806,12 @@ func (fx *FnExec) applyContract(st *State, fr *frame, tgt callTarget, sig *types
 			}
 			fx.emit(st, fr, "token", ordName+"/have:"+tr.Ghost.String(), "(>= "+cur.t+" "+amt.t+")", nil, "")
 			fx.assignGhost(st, env, tr.Ghost, "(- "+cur.t+" "+amt.t+")")
+			// a goroutine holding a WaitGroup debt is joined by Wait on that group
+			if gc, ok := tr.Ghost.(*ECall); ok && gc.Fn == "wgDebt" && len(gc.Args) == 1 {
+				if w, err := env.safeEval(gc.Args[0]); err == nil {
+					st.joins = append(append([]*pendingJoin(nil), st.joins...), &pendingJoin{wg: w.t, tgt: tgt, sig: sig, args: args})
+				}
+			}
 		}
 		k(st, nil)
 		return
@@ -770,6 +843,20 @@ func (fx *FnExec) applyContract(st *State, fr *frame, tgt callTarget, sig *types
 	na := fx.freshConst("alloc", "Int")
 	st.assume("(>= " + na + " " + st.alloc + ")")
 	st.alloc = na
+	// what the callee wrote is again a well-formed heap
+	for _, name := range sortedTermKeys(st.heap) {
+		if old[name] == st.heap[name] {
+			continue
+		}
+		srt := fx.heapSorts[name]
+		if fx.heapWF(name, srt, "x", na) == "" {
+			continue
+		}
+		c := fx.freshConst(name+"@c", srt)
+		st.assume("(= " + c + " " + st.heap[name] + ")")
+		st.heap[name] = c
+		st.assume(fx.heapWF(name, srt, c, na))
+	}
 	for i := range results {
 		st.assumeWF(results[i], rs.At(i).Type())
 		for _, fname := range fc.Fresh {
@@ -792,6 +879,11 @@ func (fx *FnExec) applyContract(st *State, fr *frame, tgt callTarget, sig *types
 		}
 	}
 	env.old = old
+	for _, g := range fc.GhostVars {
+		// the callee's ghost locals are existentially quantified for the caller
+		rs, rt := env.resolveType(g.Type)
+		env.vars[g.Name] = cval{t: fx.freshConst("gv."+g.Name, rs), sort: rs, typ: rt}
+	}
 	for _, c := range fc.Ensures {
 		v, err := env.safeEval(c.Expr)
 		if err != nil {
@@ -801,6 +893,9 @@ func (fx *FnExec) applyContract(st *State, fr *frame, tgt callTarget, sig *types
 	}
 	if tgt.key == "(*sync.Mutex).Lock" {
 		fx.monitorLock(st, fr, site, cc, args)
+	}
+	if tgt.key == "(*sync.WaitGroup).Wait" && len(args.terms) > 0 {
+		fx.joinGoroutines(st, args.terms[0])
 	}
 	k(st, results)
 }
@@ -864,6 +959,7 @@ func (fx *FnExec) havocTarget(st *State, env *evalEnv, m Expr) {
 				if hv.name == "MapLen" {
 					st.assume("(>= " + nv + " 0)")
 				}
+
 			}
 			return
 		case "mem":
@@ -941,6 +1037,7 @@ func (fx *FnExec) assignGhost(st *State, env *evalEnv, target Expr, v Term) {
 
 func (fx *FnExec) doBuiltin(st *State, fr *frame, x *ssa.Call, b *ssa.Builtin) {
 	cc := x.Common()
+	fx.ghostSets(st, fr, x)
 	arg := func(i int) Term { return st.val(cc.Args[i]) }
 	switch b.Name() {
 	case "len":
@@ -1244,4 +1341,90 @@ func (fx *FnExec) iterateCallback(st *State, fr *frame, tgt callTarget, args *ca
 		}
 		fx.paths++
 	})
+}
+
+
+// joinGoroutines: Wait on a WaitGroup returns only after every goroutine that
+// was handed one of its debts has paid it (Done happens-before Wait returns).
+// What those goroutines may have written is havocked, and their postconditions
+// are assumed. Loops that spawn are cut, so a join covers the goroutines
+// spawned on this path only; goroutines of earlier iterations are covered by
+// the loop havoc of what they modify.
+func (fx *FnExec) joinGoroutines(st *State, wg Term) {
+	var rest []*pendingJoin
+	for _, j := range st.joins {
+		if j.wg != wg {
+			rest = append(rest, j)
+			continue
+		}
+		fc := j.tgt.fc
+		env := fx.contractEnv(st, j.tgt, j.sig, nil, j.args)
+		old := st.snapshotHeap()
+		pre := *env
+		pre.old = old
+		pre.inOld = true
+		for _, m := range fc.Modifies {
+			if gc, ok := m.(*ECall); ok {
+				if g, isG := fx.P.Specs.Ghosts[gc.Fn]; isG && g.ThreadLocal {
+					continue // the other thread's own resources
+				}
+			}
+			if id, ok := m.(*EIdent); ok {
+				if g, isG := fx.P.Specs.Ghosts[id.Name]; isG && g.ThreadLocal {
+					continue
+				}
+			}
+			fx.havocTarget(st, &pre, m)
+		}
+		env.old = old
+		for _, c := range fc.Ensures {
+			if mentionsThreadLocal(fx, c.Expr) {
+				continue
+			}
+			v, err := env.safeEval(c.Expr)
+			if err != nil {
+				continue
+			}
+			st.assume(v.t)
+		}
+	}
+	st.joins = rest
+}
+
+func mentionsThreadLocal(fx *FnExec, e Expr) bool {
+	found := false
+	var walk func(Expr)
+	walk = func(e Expr) {
+		switch x := e.(type) {
+		case *EIdent:
+			if g, ok := fx.P.Specs.Ghosts[x.Name]; ok && g.ThreadLocal {
+				found = true
+			}
+		case *ECall:
+			if g, ok := fx.P.Specs.Ghosts[x.Fn]; ok && g.ThreadLocal {
+				found = true
+			}
+			for _, a := range x.Args {
+				walk(a)
+			}
+		case *EUnary:
+			walk(x.X)
+		case *EBinary:
+			walk(x.X)
+			walk(x.Y)
+		case *EField:
+			walk(x.X)
+		case *EIndex:
+			walk(x.X)
+			walk(x.I)
+		case *ECond:
+			walk(x.C)
+			walk(x.A)
+			walk(x.B)
+		case *EQuant:
+			walk(x.Body)
+		}
+	}
+	walk(e)
+	return found
 }
